@@ -30,6 +30,15 @@ def run(check, path):
     for f in r.get("findings", []):
         print(json.dumps({k: f[k] for k in ("prop", "key", "stage", "detail") if k in f})[:1500])
     if keys:
+        from . import known as known_mod
+
+        kf = known_mod.load()
+        unknown = [k for k in keys if kf.match(check.PROPERTY, k) is None]
+        if not unknown:
+            for k in keys:
+                ent = kf.match(check.PROPERTY, k)
+                print(f"KNOWN-FINDING: property={check.PROPERTY} key={ent.key} {ent.text}")
+            return 0
         same = want in keys
         print(f"VIOLATION property={check.PROPERTY} replay={os.path.relpath(path, core.VERIF_DIR)} "
               f"keys={sorted(keys)} same_as_recorded={same}")
